@@ -5,6 +5,8 @@
 
 #include <cstring>
 #include <iomanip>
+#include <limits>
+#include <new>
 #include <sstream>
 #include <type_traits>
 
@@ -83,9 +85,22 @@ namespace awkward {
     return ptr_.get() + offset_;
   }
 
+  /// @brief Number of bytes in `length` items of type `T`; a negative
+  /// `length` or a byte count that does not fit in `int64_t` cannot be
+  /// allocated (instead of wrapping around to a small or zero allocation).
+  template <typename T>
+  int64_t
+  index_bytelength(int64_t length) {
+    if (length < 0  ||
+        length > std::numeric_limits<int64_t>::max() / (int64_t)sizeof(T)) {
+      throw std::bad_array_new_length();
+    }
+    return length * (int64_t)sizeof(T);
+  }
+
   template <typename T>
   IndexOf<T>::IndexOf(int64_t length, kernel::lib ptr_lib)
-    : ptr_(kernel::malloc<T>(ptr_lib, length * (int64_t)sizeof(T)))
+    : ptr_(kernel::malloc<T>(ptr_lib, index_bytelength<T>(length)))
     , ptr_lib_(ptr_lib)
     , offset_(0)
     , length_(length)
